@@ -3,103 +3,182 @@ import CoapVerif.Spec.Replay
 /-
 C15 — OSCORE never accepts a replay or reuses a nonce; forgeries leave no trace.
 
-All theorems are about M (CoapVerif/Model/Replay.lean: `recv`, `validate`, `rollback`, `protect`, `restart`), for every
-configuration (`cfg.window`, `cfg.b12` arbitrary), every recipient state where stated, and every history (a `List` of
-events, by induction — no bound).  `accepted cfg r evs` are the Partial IVs of the requests accepted in the history
-`evs` started in state `r`, `final cfg r evs` the state reached, `verdicts cfg r evs` what each request got.
+All theorems are about M (CoapVerif/Model/Replay.lean: `step` = `recv` (request branch of coap_oscore_decrypt_pdu) /
+`recvRsp` (response branch), `validate`, `rollback`, `protect`, `restart`), for every configuration (`cfg.window`,
+`cfg.b12` arbitrary), every recipient state where stated, and every history — a `List Msg` in which protected requests
+and protected responses (Observe notifications carrying the peer's sequence number as their own Partial IV, responses
+without Partial IV, authentic or forged) of the same peer are interleaved in any order on ONE recipient context; by
+induction, no bound.  `accepted cfg r ms` are the Partial IVs of the requests accepted in the history `ms` started in
+state `r`, `recorded cfg r ms` those recorded in the replay window (accepted requests and validated accepted
+responses), `final cfg r ms` the state reached, `verdicts cfg r ms` what each message got.
 -/
 namespace Coap.C15
 open Coap.Replay
 
+/-- Every Partial IV is recorded in the replay window at most once, by a request or by a response: in every history
+of a fresh recipient context the recorded PIVs are pairwise distinct. -/
+theorem recorded_at_most_once (cfg : Cfg) (ms : List Msg) : (recorded cfg Recip.fresh ms).Nodup :=
+  (recorded_nodup_aux cfg ms Recip.fresh [] good_fresh).1
+
 /-- **A protected request is accepted by a recipient context at most once**, whatever the arrival order, window size
-and Appendix B.1.2 setting: in every history of a fresh recipient context the accepted Partial IVs are pairwise
-distinct. -/
-theorem accept_at_most_once (cfg : Cfg) (evs : List Ev) : (accepted cfg Recip.fresh evs).Nodup :=
-  (accepted_nodup_aux cfg evs Recip.fresh [] good_fresh).1
+and Appendix B.1.2 setting, and whatever responses (with older or newer Partial IVs, authentic or forged) arrive in
+between on the same context: in every history of a fresh recipient context the Partial IVs of the accepted requests
+are pairwise distinct. -/
+theorem accept_at_most_once (cfg : Cfg) (ms : List Msg) : (accepted cfg Recip.fresh ms).Nodup :=
+  (recorded_at_most_once cfg ms).sublist (accepted_sublist cfg ms _)
 
-/-- The same from any state that is consistent with a set `A` of already accepted PIVs: nothing of `A` is accepted
+/-- The same from any state that is consistent with a set `A` of already recorded PIVs: nothing of `A` is accepted
 again, and nothing is accepted twice. -/
-theorem accept_at_most_once_from (cfg : Cfg) (r : Recip) (A : List Nat) (g : Good r.view A) (evs : List Ev) :
-    (accepted cfg r evs).Nodup ∧ ∀ p ∈ accepted cfg r evs, p ∉ A :=
-  ⟨(accepted_nodup_aux cfg evs r A g).1, (accepted_nodup_aux cfg evs r A g).2.1⟩
+theorem accept_at_most_once_from (cfg : Cfg) (r : Recip) (A : List Nat) (g : Good r.view A) (ms : List Msg) :
+    (accepted cfg r ms).Nodup ∧ ∀ p ∈ accepted cfg r ms, p ∉ A :=
+  ⟨(recorded_nodup_aux cfg ms r A g).1.sublist (accepted_sublist cfg ms _),
+    fun p hp => (recorded_nodup_aux cfg ms r A g).2.1 p ((accepted_sublist cfg ms r).subset hp)⟩
 
-/-- Only requests that authenticate are accepted. -/
-theorem forged_never_accepted (cfg : Cfg) (r : Recip) (ev : Ev) (h : ev.authentic = false) :
-    (recv cfg r ev).2 ≠ .acc := by
-  rw [recv_snd]
-  rcases vrecv_cases cfg r.view ev with ⟨_, _, ha, _⟩ | ⟨_, h2, _⟩
-  · rw [h] at ha; cases ha
-  · exact h2
+/-- Only messages that authenticate are accepted (requests and responses, any state). -/
+theorem forged_never_accepted (cfg : Cfg) (r : Recip) (m : Msg) (h : m.authentic = false) :
+    (step cfg r m).2 ≠ .acc := by
+  cases m with
+  | req ev =>
+    simp only [step]
+    rw [recv_snd]
+    rcases vrecv_cases cfg r.view ev with ⟨_, _, ha, _⟩ | ⟨_, h2, _⟩
+    · have h' : ev.authentic = false := h
+      rw [h'] at ha; cases ha
+    · exact h2
+  | rsp x =>
+    simp only [step]
+    rw [recvRsp_snd]
+    exact vrecvRsp_forged_not_acc cfg r.view x h
 
-/-- **Messages that fail authentication leave the replay window and sequence state exactly as before** — in every
+/-- A request that fails authentication leaves the replay window and sequence state exactly as before — in every
 state (reachable or not), every configuration, any claimed Partial IV. -/
-theorem forgery_no_trace (cfg : Cfg) (r : Recip) (ev : Ev) (h : ev.authentic = false) :
+theorem forged_request_no_trace (cfg : Cfg) (r : Recip) (ev : Ev) (h : ev.authentic = false) :
     (recv cfg r ev).1.view = r.view := by
   rw [recv_fst_view]
   rcases vrecv_cases cfg r.view ev with ⟨_, _, ha, _⟩ | ⟨h1, _, _⟩
   · rw [h] at ha; cases ha
   · exact h1
 
+/-- **Messages that fail authentication leave the replay window and sequence state exactly as before** — requests
+and responses, every configuration, any claimed Partial IV (or none), in every state in which `last_seq` is below
+`OSCORE_SEQ_MAX` once the window is initialised (`Sane`; every reachable state is, `reachable_sane`). -/
+theorem forgery_no_trace (cfg : Cfg) (r : Recip) (m : Msg) (h : m.authentic = false) (hs : Sane r.view) :
+    (step cfg r m).1.view = r.view := by
+  cases m with
+  | req ev => exact forged_request_no_trace cfg r ev h
+  | rsp x =>
+    simp only [step]
+    rw [recvRsp_fst_view, vrecvRsp_forged h hs]
+
+/-- Every state reached from a fresh recipient context by any history of requests and responses is `Sane`. -/
+theorem reachable_sane (cfg : Cfg) (ms : List Msg) : Sane (final cfg Recip.fresh ms).view :=
+  (recorded_nodup_aux cfg ms Recip.fresh [] good_fresh).2.2.lt
+
+/-- `forgery_no_trace` for the states that occur: after any history, a message that fails authentication changes
+nothing. -/
+theorem forgery_no_trace_reachable (cfg : Cfg) (ms : List Msg) (m : Msg) (h : m.authentic = false) :
+    (step cfg (final cfg Recip.fresh ms) m).1.view = (final cfg Recip.fresh ms).view :=
+  forgery_no_trace cfg _ m h (reachable_sane cfg ms)
+
 /-- The verdicts of a history depend on the view of the starting state only (the roll-back scratch fields never
 matter). -/
-theorem verdicts_view (cfg : Cfg) (evs : List Ev) : ∀ r r' : Recip, r.view = r'.view →
-    verdicts cfg r evs = verdicts cfg r' evs := by
-  induction evs with
+theorem verdicts_view (cfg : Cfg) (ms : List Msg) : ∀ r r' : Recip, r.view = r'.view →
+    verdicts cfg r ms = verdicts cfg r' ms := by
+  induction ms with
   | nil => intro _ _ _; rfl
-  | cons ev evs ih =>
+  | cons m ms ih =>
     intro r r' h
     simp only [verdicts]
-    have h1 : (recv cfg r ev).2 = (recv cfg r' ev).2 := by rw [recv_snd, recv_snd, h]
-    have h2 : (recv cfg r ev).1.view = (recv cfg r' ev).1.view := by rw [recv_fst_view, recv_fst_view, h]
+    have h1 : (step cfg r m).2 = (step cfg r' m).2 := by rw [step_snd, step_snd, h]
+    have h2 : (step cfg r m).1.view = (step cfg r' m).1.view := by rw [step_fst_view, step_fst_view, h]
     rw [h1, ih _ _ h2]
 
-/-- **… so later genuine messages are still accepted**: whatever follows a forged request gets exactly the verdicts
-it would have got had the forged request never arrived. -/
-theorem forgery_invisible (cfg : Cfg) (r : Recip) (ev : Ev) (h : ev.authentic = false) (evs : List Ev) :
-    verdicts cfg (recv cfg r ev).1 evs = verdicts cfg r evs :=
-  verdicts_view cfg evs _ _ (forgery_no_trace cfg r ev h)
+/-- **… so later genuine messages are still accepted**: whatever follows a message that failed authentication
+(requests and responses) gets exactly the verdicts it would have got had the forged message never arrived. -/
+theorem forgery_invisible (cfg : Cfg) (r : Recip) (m : Msg) (h : m.authentic = false) (hs : Sane r.view)
+    (ms : List Msg) : verdicts cfg (step cfg r m).1 ms = verdicts cfg r ms :=
+  verdicts_view cfg ms _ _ (forgery_no_trace cfg r m h hs)
 
 /-- **No 64-bit shift by 64 or more** is executed by `oscore_validate_sender_seq` (the model exposes every shift
-amount through `shl64`), in any state, for any Partial IV; hence none in `recv` either. -/
+amount through `shl64`), in any state, for any Partial IV; hence none in `step` (request or response) either. -/
 theorem no_ub_shift (cfg : Cfg) (r : Recip) (piv : Nat) : validate cfg r piv ≠ .ub := by
   rw [validate_eq]
   unfold validateC
   repeat' split
   all_goals (intro h; cases h)
 
-theorem no_ub_recv (cfg : Cfg) (r : Recip) (ev : Ev) : (recv cfg r ev).2 ≠ .ub := by
-  rw [recv_snd]
-  rcases vrecv_cases cfg r.view ev with ⟨_, _, _, he⟩ | ⟨_, _, h3⟩
-  · rw [he]; intro h; cases h
-  · exact h3
+theorem no_ub_recv (cfg : Cfg) (r : Recip) (m : Msg) : (step cfg r m).2 ≠ .ub := by
+  cases m with
+  | req ev =>
+    simp only [step]
+    rw [recv_snd]
+    rcases vrecv_cases cfg r.view ev with ⟨_, _, _, he⟩ | ⟨_, _, h3⟩
+    · rw [he]; intro h; cases h
+    · exact h3
+  | rsp x =>
+    simp only [step]
+    rw [recvRsp_snd]
+    exact vrecvRsp_not_ub cfg r.view x
 
 
-/-- **Liveness: a genuine request inside the replay window is accepted.**  After any history of a fresh recipient
-context, a request that authenticates, whose Partial IV was never accepted, is below the sequence number limit and
-is less than `min window 64` below every accepted PIV (i.e. not older than the window), is accepted — provided the
-Appendix B.1.2 exchange is not pending (B.1.2 off, or something was accepted already) or the request carries the
-right Echo value. -/
-theorem fresh_in_window_accepted (cfg : Cfg) (evs : List Ev) (ev : Ev)
+/-- **Liveness: a genuine request inside the replay window is accepted.**  After any history of requests and
+responses of a fresh recipient context, a request that authenticates, whose Partial IV was never recorded (accepted
+in a request, or in a validated response), is below the sequence number limit and is less than `min window 64` below
+every recorded PIV (i.e. not older than the window), is accepted — provided the Appendix B.1.2 exchange is not
+pending (B.1.2 off, or something was recorded already) or the request carries the right Echo value. -/
+theorem fresh_in_window_accepted (cfg : Cfg) (ms : List Msg) (ev : Ev)
     (ha : ev.authentic = true) (hp : ev.piv < SEQ_MAX)
-    (hn : ev.piv ∉ accepted cfg Recip.fresh evs)
-    (hw : ∀ q ∈ accepted cfg Recip.fresh evs, q < ev.piv + min cfg.window 64)
-    (hs : cfg.b12 = false ∨ accepted cfg Recip.fresh evs ≠ [] ∨ ev.echo = .good) :
-    (recv cfg (final cfg Recip.fresh evs) ev).2 = .acc := by
-  have g := (accepted_nodup_aux cfg evs Recip.fresh [] good_fresh).2.2
+    (hn : ev.piv ∉ recorded cfg Recip.fresh ms)
+    (hw : ∀ q ∈ recorded cfg Recip.fresh ms, q < ev.piv + min cfg.window 64)
+    (hs : cfg.b12 = false ∨ recorded cfg Recip.fresh ms ≠ [] ∨ ev.echo = .good) :
+    (step cfg (final cfg Recip.fresh ms) (.req ev)).2 = .acc := by
+  have g := (recorded_nodup_aux cfg ms Recip.fresh [] good_fresh).2.2
   rw [List.append_nil] at g
   obtain ⟨v', hv⟩ := vvalidate_live (cfg := cfg) g hp (by simpa using hn) (by simpa using hw)
+  simp only [step]
   rw [recv_snd]
   apply vrecv_acc ha hv
   rcases hs with hs | hs | hs
   · left; simp [hs]
   · left
-    cases hi : (final cfg Recip.fresh evs).view.init with
+    cases hi : (final cfg Recip.fresh ms).view.init with
     | false => simp
     | true =>
       have := g.fresh hi
       simp at this
       exact absurd this hs
   · right; exact hs
+
+/-- Liveness for responses: a genuine response without Partial IV is accepted in every state; a genuine response
+(notification) whose Partial IV is below the limit, was never recorded and is not older than the window is accepted
+after any history (before the window is initialised: provided no Partial IV ≥ 2^40 − 1 was accepted, D15f). -/
+theorem response_without_piv_accepted (cfg : Cfg) (r : Recip) :
+    step cfg r (.rsp ⟨true, none⟩) = (r, .acc) := rfl
+
+theorem fresh_response_accepted (cfg : Cfg) (ms : List Msg) (p : Nat) (hp : p < SEQ_MAX)
+    (hn : p ∉ recorded cfg Recip.fresh ms)
+    (hw : ∀ q ∈ recorded cfg Recip.fresh ms, q < p + min cfg.window 64)
+    (hl : (final cfg Recip.fresh ms).init = true → (final cfg Recip.fresh ms).last < SEQ_MAX) :
+    (step cfg (final cfg Recip.fresh ms) (.rsp ⟨true, some p⟩)).2 = .acc := by
+  have g := (recorded_nodup_aux cfg ms Recip.fresh [] good_fresh).2.2
+  rw [List.append_nil] at g
+  simp only [step]
+  rw [recvRsp_snd]
+  cases hi : (final cfg Recip.fresh ms).init with
+  | true =>
+    have h1 := hl hi
+    have hi' : (final cfg Recip.fresh ms).view.init = true := hi
+    have hl' : (final cfg Recip.fresh ms).view.last = (final cfg Recip.fresh ms).last := rfl
+    have h2 : ¬ (final cfg Recip.fresh ms).last ≥ SEQ_MAX := by omega
+    unfold vrecvRsp
+    simp [hi', hl', h2]
+  | false =>
+    have hi' : (final cfg Recip.fresh ms).view.init = false := hi
+    obtain ⟨v', hv⟩ := vvalidate_live (cfg := cfg) g hp (by simpa using hn) (by simpa using hw)
+    have hlt := vvalidate_last_lt hv (g.lt : Sane _)
+    have h2 : ¬ v'.last ≥ SEQ_MAX := by omega
+    unfold vrecvRsp
+    simp [hi', hv, h2]
 
 /-- **A sender context never protects two messages with the same Partial IV, also across restarts** that resume from
 the value last handed to the save callback: for every `ssn_freq` (also changed at a restart), every start value a
@@ -115,37 +194,49 @@ theorem piv_never_reused (f start : Nat) (ops : List SOp) (hs : start ≤ SEQ_MA
   (piv_strictly_increasing f start ops hs hl).imp (fun h => Nat.ne_of_lt h)
 
 
-/-- **P1: M refines S.**  The trace of every history of a fresh recipient context conforms to the specification
-monitor (every outcome is one the monitor allows: forgeries rejected, accepted PIVs rejected, fresh in-window
-requests accepted, Appendix B.1.2 outcomes). -/
-theorem recv_conforms_spec (cfg : Cfg) (evs : List Ev) :
-    ReplaySpec.conforms cfg.window (ReplaySpec.St.start cfg.b12) (strace cfg Recip.fresh evs) := by
-  have := strace_conforms cfg evs Recip.fresh [] good_fresh
-  simpa [ReplaySpec.St.start, Recip.fresh] using this
+/-- **P1: M refines S.**  The trace of every history of requests and responses of a fresh recipient context conforms
+to the specification monitor (every outcome is one the monitor allows: forgeries rejected, accepted request PIVs
+rejected, fresh in-window requests and responses accepted, Appendix B.1.2 outcomes). -/
+theorem recv_conforms_spec (cfg : Cfg) (ms : List Msg) :
+    ReplaySpec.conforms cfg.window (ReplaySpec.St.start cfg.b12) (strace cfg Recip.fresh ms) :=
+  strace_conforms cfg ms Recip.fresh [] _ (rel_start cfg)
 
 /-- **P2: S ⊨ at most once.**  Whatever implementation produced it, a trace that conforms to the monitor accepts
-every Partial IV at most once. -/
-theorem spec_accept_at_most_once (w : Nat) (b12 : Bool) (t : List (ReplaySpec.Req × ReplaySpec.Out))
+every request Partial IV at most once, whatever responses are interleaved. -/
+theorem spec_accept_at_most_once (w : Nat) (b12 : Bool) (t : List (ReplaySpec.Msg × ReplaySpec.Out))
     (h : ReplaySpec.conforms w (ReplaySpec.St.start b12) t) : (tracc t).Nodup :=
   (spec_nodup_aux w t _ (fun _ => rfl) h).1
 
-/-- P2: a trace that conforms to the monitor rejects every request that does not authenticate. -/
-theorem spec_forged_rejected (w : Nat) (s : ReplaySpec.St) (q : ReplaySpec.Req) (o : ReplaySpec.Out)
-    (t : List (ReplaySpec.Req × ReplaySpec.Out)) (h : ReplaySpec.conforms w s ((q, o) :: t))
-    (hq : q.authentic = false) : o = .reject := by
+/-- P2: a trace that conforms to the monitor rejects every message (request or response) that does not
+authenticate, and the monitor state is then unchanged. -/
+theorem spec_forged_rejected (w : Nat) (s : ReplaySpec.St) (m : ReplaySpec.Msg) (o : ReplaySpec.Out)
+    (t : List (ReplaySpec.Msg × ReplaySpec.Out)) (h : ReplaySpec.conforms w s ((m, o) :: t))
+    (hq : m.authentic = false) : o = .reject ∧ ReplaySpec.next s m o = s := by
   have := h.1
-  simpa [ReplaySpec.allowed, hq] using this
+  have ho : o = .reject := by
+    cases m with
+    | req q =>
+      have hq' : q.authentic = false := hq
+      simpa [ReplaySpec.allowed, ReplaySpec.allowedReq, hq'] using this
+    | rsp x =>
+      have hq' : x.authentic = false := hq
+      simpa [ReplaySpec.allowed, ReplaySpec.allowedRsp, hq'] using this
+  exact ⟨ho, next_not_accept _ _ _ (by rw [ho]; intro h; cases h)⟩
 
 /-- P1 ∘ P2: `accept_at_most_once` again, this time through the specification. -/
-theorem accepted_via_spec (cfg : Cfg) (evs : List Ev) : (accepted cfg Recip.fresh evs).Nodup := by
+theorem accepted_via_spec (cfg : Cfg) (ms : List Msg) : (accepted cfg Recip.fresh ms).Nodup := by
   rw [← tracc_strace]
-  exact spec_accept_at_most_once cfg.window cfg.b12 _ (recv_conforms_spec cfg evs)
+  exact spec_accept_at_most_once cfg.window cfg.b12 _ (recv_conforms_spec cfg ms)
 
 /-! ### Non-vacuity: concrete histories (the minimal witnesses of the defects fixed in libcoap, see design/C15.md) -/
 
-private def a (p : Nat) : Ev := ⟨true, p, .none⟩
-private def e (p : Nat) : Ev := ⟨true, p, .good⟩
-private def x (p : Nat) : Ev := ⟨false, p, .none⟩
+private def a (p : Nat) : Msg := .req ⟨true, p, .none⟩
+private def e (p : Nat) : Msg := .req ⟨true, p, .good⟩
+private def x (p : Nat) : Msg := .req ⟨false, p, .none⟩
+private def n (p : Nat) : Msg := .rsp ⟨true, some p⟩      -- authentic notification with its own Partial IV
+private def y (p : Nat) : Msg := .rsp ⟨false, some p⟩     -- forged response claiming a Partial IV
+private def rr : Msg := .rsp ⟨true, none⟩                -- authentic response without Partial IV
+private def z : Msg := .rsp ⟨false, none⟩                -- forged response without Partial IV
 
 -- 10, 12, replay of 10, fresh 11, replay of 11 (pinned tree: replay of 10 accepted, 11 rejected)
 example : verdicts ⟨32, true⟩ Recip.fresh [e 10, a 12, a 10, a 11, a 11] = [.acc, .acc, .rej401, .acc, .rej401] := by decide
@@ -162,6 +253,40 @@ example : verdicts ⟨32, true⟩ Recip.fresh [e 5, a 100, a 5, a 101] = [.acc, 
 example : verdicts ⟨32, true⟩ Recip.fresh [a 4, e 5, e 5, a 4] = [.chal, .acc, .rej401, .acc] := by decide
 -- the hypotheses of fresh_in_window_accepted are satisfiable with a non-trivial history
 example : accepted ⟨3, false⟩ Recip.fresh [a 10, a 12, x 11] = [10, 12] := by decide
+
+/-! Requests and responses interleaved on one recipient context. -/
+-- The reordered notification: the peer sent request 0, notification 1 (delayed), requests 2 and 3; the notification
+-- arrives last.  It is accepted and recorded, last_seq stays 3 (guarded assignment), and the replays of requests 3
+-- and 2 are rejected.  (With the assignment unconditional last_seq would drop to 1 under an unchanged bitmap and the
+-- replay of request 3 would be accepted a second time: caught by the differential run, and `vrecvRsp_good` fails.)
+example : verdicts ⟨32, false⟩ Recip.fresh [a 0, a 2, a 3, n 1, a 3, a 2] = [.acc, .acc, .acc, .acc, .rej401, .rej401] := by
+  decide
+example : (final ⟨32, false⟩ Recip.fresh [a 0, a 2, a 3, n 1]).view = ⟨false, 3, 15⟩ := by decide
+example : recorded ⟨32, false⟩ Recip.fresh [a 0, a 2, a 3, n 1, a 3, a 2] = [0, 2, 3, 1] ∧
+    accepted ⟨32, false⟩ Recip.fresh [a 0, a 2, a 3, n 1, a 3, a 2] = [0, 2, 3] := by decide
+-- why the guard matters: the state an unconditional assignment would leave after that notification (last_seq 1 under
+-- the bitmap 15 that is aligned to 3) is not `Good` for [0, 2, 3, 1] — it accepts request 3 a second time
+example : (step ⟨32, false⟩ { Recip.fresh with init := false, last := 1, win := 15 } (a 3)).2 = .acc := by decide
+-- a notification and a request can never share a sequence number; replays of notifications are rejected once validated
+example : verdicts ⟨32, false⟩ Recip.fresh [a 0, n 1, a 1, n 1, a 2] = [.acc, .acc, .rej401, .drop, .acc] := by decide
+-- forged response claiming 50 after genuine request 0 (pinned tree: no roll back in the response branch, last_seq stayed
+-- 50 and the genuine request 1 was rejected); forged response claiming 3 (pinned tree: bit of 3 stayed set, genuine
+-- request 3 rejected as a replay)
+example : verdicts ⟨32, false⟩ Recip.fresh [a 0, y 50, a 1] = [.acc, .drop, .acc] := by decide
+example : (final ⟨32, false⟩ Recip.fresh [a 0, y 50]).view = (final ⟨32, false⟩ Recip.fresh [a 0]).view := by decide
+example : verdicts ⟨32, false⟩ Recip.fresh [a 5, z, rr, y 3, a 3, n 4, y 4] = [.acc, .drop, .acc, .drop, .acc, .acc, .drop] := by
+  decide
+-- before the window is initialised (pinned tree: the forged 2^40-1 stayed in last_seq and every later notification
+-- failed the SEQ_MAX check)
+example : verdicts ⟨32, true⟩ Recip.fresh [y SEQ_MAX, n 5, n 6] = [.drop, .acc, .acc] := by decide
+example : (final ⟨32, true⟩ Recip.fresh [y SEQ_MAX]).view = Recip.fresh.view := by decide
+-- `Sane` is needed in `forgery_no_trace`: in the unreachable state initial_state = 0, last_seq = SEQ_MAX the SEQ_MAX
+-- exit of the response branch is taken after oscore_validate_sender_seq has recorded the claimed Partial IV
+example : (step ⟨32, false⟩ { Recip.fresh with init := false, last := SEQ_MAX, win := 1 } (y (SEQ_MAX - 1))).1.view
+    = ⟨false, SEQ_MAX, 3⟩ := by decide
+-- the hypotheses of fresh_response_accepted / forgery_invisible are satisfiable
+example : recorded ⟨3, false⟩ Recip.fresh [n 7, a 10, n 12, y 11] = [10, 12] ∧
+    (final ⟨3, false⟩ Recip.fresh [n 7, a 10, n 12, y 11]).view = ⟨false, 12, 5⟩ := by decide
 -- sender: ssn_freq 4, crash after PIV 5 (stored value 8), resume at 8
 example : pivs (srun (SSys.start 4 0) [.protect, .protect, .protect, .protect, .protect, .protect, .crash 4, .protect])
     = [0, 1, 2, 3, 4, 5, 8] := by decide
